@@ -338,6 +338,10 @@ struct JudgeIn<'a> {
     partial_header_notifies: u64,
     /// Output length of this connection at the last notify() call.
     last_notify_mark: Option<usize>,
+    /// One read or write call of the server on this connection was made to
+    /// fail: the connection may have ended there. What was written must still
+    /// be a correct prefix; nothing more is required.
+    io_fault: bool,
 }
 
 //------------ The run -----------------------------------------------------------
@@ -364,6 +368,7 @@ const A_SENDER_GONE: usize = 7;
 const A_CLIENT_EOF: usize = 8;
 const A_TOGGLE_READY: usize = 9;
 const A_WAIT: usize = 10;
+const A_IO_ERROR: usize = 11;
 
 impl C08 {
     fn gen_script(t: &mut Tape, src: &VersionedSource, cfg: &Cfg, kind: RunKind, tier: Tier) -> Vec<Unit> {
@@ -594,9 +599,9 @@ impl C08 {
         // ---- schedule ------------------------------------------------------
         let mut sent = 0usize;
         let mut partial_header_notifies = 0u64;
-        let weights: [u64; 11] = match kind {
+        let weights: [u64; 12] = match kind {
             // The sweep drives the grid itself (below).
-            RunKind::Sweep(_) => [1, 0, 0, 0, 0, 0, 0, 0, 0, 0, 0],
+            RunKind::Sweep(_) => [1, 0, 0, 0, 0, 0, 0, 0, 0, 0, 0, 0],
             RunKind::Random => [
                 1,
                 6,
@@ -609,10 +614,12 @@ impl C08 {
                 if ctx.chance(1, 5) { 1 } else { 0 },
                 if cfg.dynamic && ctx.chance(1, 3) { 1 } else { 0 },
                 if ctx.chance(1, 3) { 1 } else { 0 },
+                if ctx.chance(1, 6) { 1 } else { 0 },
             ],
         };
         let mut sender_gone = false;
         let mut listener_failed = false;
+        let mut io_fault = false;
         let mut closed = false;
 
         if let RunKind::Sweep(i) = kind {
@@ -826,6 +833,35 @@ impl C08 {
                             ctx.ev(8, sent as u64, || format!("client half-closes after {} bytes ({} unread by the server, server blocked in write: {})", sent, unread, blocked));
                         }
                     }
+                    A_IO_ERROR => {
+                        // One read or write call of the server fails, with any
+                        // error kind a transport may report; the socket would
+                        // work again afterwards. The connection may end there -
+                        // but whatever it has written or goes on to write must
+                        // be a correct prefix of the answer (a record skipped
+                        // because its write was "only interrupted" is not).
+                        if !io_fault {
+                            io_fault = true;
+                            let kinds = [
+                                std::io::ErrorKind::ConnectionReset, std::io::ErrorKind::BrokenPipe, std::io::ErrorKind::Interrupted,
+                                std::io::ErrorKind::TimedOut, std::io::ErrorKind::Other, std::io::ErrorKind::ConnectionAborted,
+                            ];
+                            let kind = kinds[ctx.choose(kinds.len() as u64) as usize];
+                            if ctx.chance(2, 3) {
+                                let mut p = s2c.lock().unwrap();
+                                p.write_err = Some(kind);
+                                p.wake_writer();
+                                counters.bump("fault_server_write_error");
+                                ctx.ev(14, 0, || format!("the server's next write fails with {:?}", kind));
+                            } else {
+                                let mut p = c2s.lock().unwrap();
+                                p.read_err = Some(kind);
+                                p.wake_reader();
+                                counters.bump("fault_server_read_error");
+                                ctx.ev(14, 1, || format!("the server's next read fails with {:?}", kind));
+                            }
+                        }
+                    }
                     A_WAIT => {
                         // simulated time passes (nothing else happens): a
                         // connection's answers must not depend on WHEN the
@@ -946,7 +982,7 @@ impl C08 {
         let reordered_responses = std::cell::Cell::new(0u64);
         let never_ready_seen = calls.iter().any(|c| matches!(c.kind, CallKind::Ready(false)));
         let judge = |ji: &JudgeIn, answers: &[Ans]| -> Result<(ModelOut, usize, u64), Violation> {
-        let JudgeIn { script, output, pdus, used, version: conn_version, notified, never_ready_seen, partial_header_notifies, last_notify_mark } = *ji;
+        let JudgeIn { script, output, pdus, used, version: conn_version, notified, never_ready_seen, partial_header_notifies, last_notify_mark, io_fault } = *ji;
         let m = model(script, answers)?;
 
         let ctx_key = |default: &str| -> String {
@@ -1113,7 +1149,7 @@ impl C08 {
             }
         }
         let error_terminated = m.desync && idx == m.expected.len();
-        if !error_terminated {
+        if !error_terminated && !io_fault {
             if used != output.len() {
                 return Err(Violation::new(
                     "partial-response",
@@ -1130,7 +1166,7 @@ impl C08 {
             }
         }
         // 4. bounded progress: all bytes delivered, faults stopped, quiescent
-        if idx < m.expected.len() || answers.len() < m.well_formed {
+        if (idx < m.expected.len() || answers.len() < m.well_formed) && !io_fault {
             let missing_kind = match m.expected.get(idx) {
                 Some(Expected::Error { .. }) => "missing-error",
                 _ => "lost-query",
@@ -1151,7 +1187,7 @@ impl C08 {
         // the server ran again was forgiven when the EOF was issued).
         if let Some(mark) = last_notify_mark {
             let sent_after = pdus.iter().any(|(off, p)| *off >= mark && matches!(p, WirePdu::SerialNotify { .. }));
-            if !sent_after && !m.ends && !m.desync && !m.stuck_in_query {
+            if !sent_after && !m.ends && !m.desync && !m.stuck_in_query && !io_fault {
                 return Err(Violation::new(
                     "lost-notify",
                     "",
@@ -1199,7 +1235,7 @@ impl C08 {
         };
         let main_in = JudgeIn {
             script: &script, output: &output, pdus: &pdus, used, version: cfg.version, notified: &notified,
-            never_ready_seen, partial_header_notifies, last_notify_mark,
+            never_ready_seen, partial_header_notifies, last_notify_mark, io_fault,
         };
         let (m, idx, notifies_seen) = decide(&main_in, &answers)?;
         // The second connection: its own handshake answered, every later
@@ -1222,7 +1258,7 @@ impl C08 {
                 let by_answers = build_answers(&by_calls);
                 let by_in = JudgeIn {
                     script: &by.script, output: &by_out, pdus: &by_pdus, used: by_used, version: by.version, notified: &notified,
-                    never_ready_seen, partial_header_notifies: 0, last_notify_mark: by.last_notify_mark,
+                    never_ready_seen, partial_header_notifies: 0, last_notify_mark: by.last_notify_mark, io_fault: false,
                 };
                 let (_, by_idx, by_notifies) = decide(&by_in, &by_answers).map_err(tag)?;
                 counters.add("probe_second_connection_responses_checked", by_idx as u64);
